@@ -10,6 +10,7 @@ CONSTANTS
   CodeDen = {}
   Dims = 2
   Kinds <- KindsML
+  HalfLimits = FALSE
   Uneven = "any"
 VIEW View
 ACTION_CONSTRAINT Emit
